@@ -482,7 +482,10 @@ def execute_lin(desc):
         if cond < 1e6:
             raise Violation('lin_solver:residual_increased', f'|F x - b| = {true:.6e} exceeds the residual of the initial guess {np.linalg.norm(q0):.6e}')
         labels.append('ill_conditioned')
-    if desc['ncv'] >= dimK and cond < 1e4:
+    loss, ambiguous = simulated_loss(mp.F, q0, desc['ncv'], hflag)
+    if loss > 1e-10 or ambiguous:
+        labels.append('orthogonality_lost_in_floating_point:exactness_clause_skipped')      # (same applicability predicate as for eigs)
+    elif desc['ncv'] >= dimK and cond < 1e4:
         labels.append('krylov_space_exhausted')
         if true > 1e-7 * cond * scale:
             raise Violation('lin_solver:not_solved', f'Krylov space of the initial residual exhausted (dim {dimK}, ncv {desc["ncv"]}) but |F x - b| = {true:.3e} (cond {cond:.1e})')
